@@ -120,25 +120,23 @@ def settle(model, V, items):
 
 
 def late_response(it, steps, pos):
-    """the response delivered at step pos was first transmitted after the NACK for its token"""
-    p = it.get("parsed")
-    if not p:
-        return False
+    """the response handled at step pos comes after a legitimate give-up: the NACK for its token
+    was TOO_MANY_RETRIES after MAX_RETRANSMIT + 1 transmissions of the request (the client did all
+    it has to; the server was still transmitting - a slow async handler, or its own
+    retransmissions of a separate response whose earlier copies were lost)"""
     inp = steps[pos][0]
     if not inp.startswith("R:"):
         return False
     kind, mid, tok, _ = G.rx_fields(inp)
-    tnack = None
+    ntx = 0
     for j in range(pos):
         for o in steps[j][1]:
             f = o.split(":")
+            if f[0] == "tx" and f[1] == "req" and int(f[3]) == tok:
+                ntx += 1
             if f[0] == "nack" and int(f[1]) == tok:
-                tnack = p["times"][j]
-    if tnack is None:
-        return False
-    name = {"cr": "conr", "ar": "ackr", "nr": "nonr"}[kind]
-    sent = [e["t"] for e in p["log"] if e["side"] == "s" and e["d"].startswith("%s:%d:" % (name, mid))]
-    return bool(sent) and min(sent) > tnack
+                return f[2] == "0" and ntx == G.MAXR + 1
+    return False
 
 
 def liveness(V, it):
